@@ -9,8 +9,6 @@ import (
 	"flag"
 	"fmt"
 	"io/fs"
-	"os"
-	"path/filepath"
 	"sort"
 	"strconv"
 	"strings"
